@@ -305,6 +305,61 @@ func smtpOracles(c *core.Ctx, sc *smtpCase, res *dialogueResult, st *smtpStack) 
 		}
 	}
 	_ = envFrom
+	// ---- C17: a before-hook is shown THE ENVELOPE — at RCPT the recipients accepted since the last accepted MAIL of this connection followed by
+	// the candidate, and nothing of an earlier transaction; at MAIL an empty recipient list.  Judged from what the hooks themselves were shown
+	// and the replies alone: the list shown at a RCPT is the list shown at the previous RCPT of the transaction that was answered 250, plus one.
+	if !sc.pipelined && sc.cut < 0 {
+		st.hookMu.Lock()
+		calls := append([]hookCall{}, st.hookLog...)
+		st.hookMu.Unlock()
+		var shown []string // s.To of the last RCPT hook call of the open transaction whose RCPT was accepted
+		byLine := map[int][]hookCall{}
+		for _, hc := range calls {
+			byLine[hc.line] = append(byLine[hc.line], hc)
+		}
+		data := false
+		for i, l := range sc.d.lines {
+			ri := res.lineReply[i]
+			if ri < 0 {
+				continue
+			}
+			code := res.replies[ri].code
+			if data { // the reply to the end of the data block: the transaction is over
+				data, shown = false, nil
+				continue
+			}
+			cmd, _, ok := harnessParseCmd(strings.TrimRight(string(l), "\r\n"))
+			if !ok {
+				continue
+			}
+			for _, hc := range byLine[i] {
+				switch {
+				case hc.kind == "mail" && len(hc.to) != 0:
+					fail("hook-sees-the-envelope", fmt.Sprintf("the MAIL hook of line %d (%q) was shown %d recipient(s) %q: no transaction is open", i+1, strings.TrimSpace(string(l)), len(hc.to), hc.to))
+				case hc.kind == "rcpt" && cmd == "RCPT":
+					if len(hc.to) == 0 || strings.Join(hc.to[:len(hc.to)-1], "\x00") != strings.Join(shown, "\x00") {
+						fail("hook-sees-the-envelope", fmt.Sprintf("the RCPT hook of line %d (%q) was shown the recipients %q; the recipients accepted since the last MAIL of this connection are %q, so it is owed these plus the candidate", i+1, strings.TrimSpace(string(l)), hc.to, shown))
+					} else if code == 250 {
+						shown = hc.to
+					}
+				}
+			}
+			switch cmd {
+			case "MAIL", "RSET":
+				if code == 250 {
+					shown = nil
+				}
+			case "HELO", "EHLO":
+				if code == 250 {
+					shown = nil
+				}
+			case "DATA":
+				if code == 354 {
+					data = true
+				}
+			}
+		}
+	}
 	// ---- C06: nothing stored exceeds the limit (data part = source minus the three trace lines)
 	for _, m := range res.dumpMsgs {
 		rest := m.source
